@@ -29,7 +29,7 @@ pub fn fuel_for(stream: &str) -> i32 {
     }
 }
 
-/// Does `text` scan (reference scanner and the implementation's lexer) to exactly the lexemes?
+/// Does `text` scan (independent reference scanner) to exactly the intended lexemes?
 pub fn scans_to(text: &str, p: &Prog) -> bool {
     let a = refscan::scan(text);
     if a.len() != p.toks.len() + 1 {
@@ -40,11 +40,10 @@ pub fn scans_to(text: &str, p: &Prog) -> bool {
             return false;
         }
     }
-    let b = refscan::scan_impl(text);
-    a.len() == b.len()
-        && a.iter()
-            .zip(&b)
-            .all(|(x, y)| x.start == y.start && x.end == y.end && x.kind == y.kind)
+    // Only the independent scanner decides whether a rendering is usable: if the lexer under
+    // test tokenises a well-formed rendering differently, that must surface as a failure of the
+    // property being checked, not be filtered away here.
+    true
 }
 
 pub fn build(t: &mut Tape, fuel: i32, opts: Opts, policy: Option<CommentPolicy>, style: Option<Style>) -> Option<Wf> {
@@ -82,6 +81,11 @@ pub fn build(t: &mut Tape, fuel: i32, opts: Opts, policy: Option<CommentPolicy>,
     layout::own_line_fixup(&p, &mut gaps);
     let input = layout::render(&p, &gaps);
     if !scans_to(&input, &p) {
+        if std::env::var("VERIF_DEBUG_GEN").is_ok() {
+            let a = refscan::scan(&input);
+            let k = a.iter().zip(&p.toks).position(|(t, x)| t.kind != x.kind || t.text(&input) != x.text);
+            eprintln!("render mismatch at token {:?}: scanned {:?} intended {:?}", k, k.map(|k| a[k].text(&input).to_string()), k.map(|k| (p.toks[k].text.clone(), p.toks.get(k + 1).map(|t| t.text.clone()))));
+        }
         return None;
     }
     Some(Wf { prog: p, gaps, input, style })
